@@ -57,6 +57,7 @@ class Block:
         self.term = None
 
 
+RE_CONST = re.compile(r'^const (\S+): ([^\n]*?) = \{\n(.*?)^\}\n', re.M | re.S)
 RE_FN = re.compile(r'^fn (.*?)\((.*?)\) -> (.*?) \{\n(.*?)^\}\n', re.M | re.S)
 
 
@@ -141,6 +142,9 @@ def parse_functions(text):
                     raise Unsupported(f'argument {a!r} of {name}')
                 arglist.append((mm.group(1), mm.group(2)))
         fns[name] = (name, arglist, ret, body)
+    # promoted constants / const items with a body: zero-argument functions
+    for m in RE_CONST.finditer(text):
+        fns['const ' + m.group(1)] = ('const ' + m.group(1), [], m.group(2), m.group(3))
     return fns
 
 
@@ -248,6 +252,9 @@ def parse_operand(s):
         return ('move', parse_place(s[5:]))
     if s.startswith('const '):
         return ('const', s[6:].strip())
+    if re.match(r'^[\w<]', s) and '::' in s:
+        # a function item named by its path (zero-sized fn item passed as a value)
+        return ('const', 'ZeroSized: {' + s + '}')
     raise Unsupported(f'operand {s!r}')
 
 
